@@ -185,8 +185,13 @@ class ProgScenario(WfScenario):
 
     def __init__(self, name, prog, results=None, wf_input=None, jinja=False,
                  compare_output=True, check_prereq=False, compare_ctx=True,
-                 **kw):
+                 warmup=None, **kw):
         from mc import wfgen
+        # warmup: {'prog': ..., 'results': ...} - an earlier version of the
+        # definition that is created and run to completion first; the
+        # definition is then updated to `prog` and the explored run starts
+        # (what the engine cached for the first version must not leak)
+        self.warmup = warmup
         self.prog = prog
         self.jinja = jinja
         self.compare_output = compare_output
@@ -204,7 +209,7 @@ class ProgScenario(WfScenario):
         d.update(prog=self.prog, jinja=self.jinja,
                  compare_output=self.compare_output,
                  check_prereq=self.check_prereq,
-                 compare_ctx=self.compare_ctx)
+                 compare_ctx=self.compare_ctx, warmup=self.warmup)
         return d
 
     def model(self):
@@ -221,7 +226,45 @@ class ProgScenario(WfScenario):
 
     def setup(self):
         self.model()
-        super(ProgScenario, self).setup()
+        if not self.warmup:
+            return super(ProgScenario, self).setup()
+        from mc import wfgen
+        from mistral.db.v2 import api as db_api
+        w = self.warmup
+        env.reset(results=w.get('results') or {}, overrides=self.overrides,
+                  scheduler=self.scheduler, n_sched=self.n_sched)
+        env.with_ctx(lambda: env.wf_service.create_workflows(
+            wfgen.render(w['prog'], jinja=self.jinja)))
+        env.post('start_workflow', wf_identifier=self.wf, wf_namespace='',
+                 wf_ex_id=None, wf_input=dict(w.get('input') or {}),
+                 description='', params={})
+        for _ in range(400):
+            ch = env.enabled_choices()
+            if ch:
+                env.step(ch[0])
+                continue
+            t = env.next_clock_event()
+            if t is None or t > 600:
+                break
+            env.set_clock(t)
+        # the definition is updated, the finished run is removed
+
+        def upd():
+            env.wf_service.update_workflows(self.yaml)
+            with db_api.transaction():
+                for wx in db_api.get_workflow_executions():
+                    if not wx.task_execution_id:
+                        db_api.delete_workflow_execution(wx.id)
+        env.set_clock(env.W.clock + 5)
+        env.with_ctx(upd)
+        env.W.results = dict(self.results or {})
+        env.W.runs = {}
+        del env.W.exceptions[:]
+        del env.W.msg_log[:]
+        del env.W.run_log[:]
+        env.W.clear_caches = self.clear_caches
+        self.start()
+        env.W.rp = self.rp
 
     def describe(self):
         d = super(ProgScenario, self).describe()
